@@ -65,6 +65,10 @@ package db
 //@   modifies *
 //@   only-contracts Errorf
 //@   propagates setOldRevisionJSONBody#1 MarshalJSON#1 JSONMarshal#1 SetRaw#1
+// (C02) the channel set handed in is the one serialised into the backup's channel xattr
+//@   also C02: stores-given-channels, channels-in-backup
+//@   before[stores-given-channels] call MarshalJSON#1 $0 == channels
+//@   before[channels-in-backup]    call EncodeValueWithXattrs#1 $0 == body && len($1) == 2 && $1[0].Name == backupRevisionChannelsMetaKey && $1[0].Value == callres(MarshalJSON, 1, 0)
 //@   ensures[written] isNilErr(result) ==> (called(setOldRevisionJSONBody, 1) && isNilErr(callres(setOldRevisionJSONBody, 1, 0))) || (called(SetRaw, 1) && isNilErr(callres(SetRaw, 1, 0)))
 
 // A missing backup is re-created; every other Touch error surfaces.
@@ -72,6 +76,8 @@ package db
 //@   modifies *
 //@   only-contracts IsDocNotFoundError
 //@   propagates setOldRevisionJSON#1
+//@   also C02: channels-passed-on
+//@   before[channels-passed-on] call setOldRevisionJSON#1 $7 == channels && $2 == docid && $3 == revid && $4 == body
 //@   ensures[touch-error] !isNilErr(callres(Touch, 1, 1)) && !(isDocNotFoundErr(callres(Touch, 1, 1)) && len(body) > 0) ==> !isNilErr(result)
 
 // ---- sequences ----
@@ -85,7 +91,14 @@ package db
 // uncontracted allocator calls havoc; the slice header is a value.)
 //@ func DatabaseContext.assignSequence
 //@   modifies *
-//@   only-contracts none
+//@   only-contracts nextSequence
+// (C05) the sequence a committed write carries is strictly greater than the document's previous sequence, in all three branches
+//@   also C05: floor-is-doc-sequence, released-only-if-unusable, fresh-only-if-above, kept-only-if-above, assigned-is-allocated
+//@   before[floor-is-doc-sequence] call nextSequenceGreaterThan#1 $2 == doc.Sequence
+//@   before[released-only-if-unusable] call releaseSequence#1 $2 <= doc.Sequence
+//@   ensures[fresh-only-if-above] isNilErr(result1) && called(nextSequence, 1) && !called(nextSequenceGreaterThan, 1) ==> #docSequence > old(doc.Sequence)
+//@   ensures[kept-only-if-above]  !called(nextSequence, 1) ==> docSequence > old(doc.Sequence)
+//@   ensures[assigned-is-allocated] isNilErr(result1) ==> #docSequence == ite(called(nextSequenceGreaterThan, 1), callres(nextSequenceGreaterThan, 1, 0), ite(called(nextSequence, 1), callres(nextSequence, 1, 0), docSequence))
 //@   best-effort releaseSequence#1
 //@   propagates nextSequence#1 nextSequenceGreaterThan#1
 //@   before[releases-the-fresh-one] call releaseSequence#1 isNilErr(callres(nextSequence, 1, 1)) && $2 == callres(nextSequence, 1, 0)
@@ -123,6 +136,25 @@ package db
 //@   before[backup-after-acceptance]      call backupAncestorRevs#1 isNilErr(callres(dynamic, 1, 4)) && called(runSyncFn, 1) && isNilErr(callres(runSyncFn, 1, 5)) && (called(addAttachments, 1) ==> isNilErr(callres(addAttachments, 1, 0)))
 //@   before[sequence-after-acceptance]    call assignSequence#1 isNilErr(callres(dynamic, 1, 4)) && called(runSyncFn, 1) && isNilErr(callres(runSyncFn, 1, 5)) && (called(addAttachments, 1) ==> isNilErr(callres(addAttachments, 1, 0)))
 //@   before[bodies-after-sequence]        call persistModifiedRevisionBodies#1 called(assignSequence, 1) && isNilErr(callres(assignSequence, 1, 1)) && isNilErr(callres(updateHLV, 1, 1))
+// (C02) the channel set stamped on the backup of the superseded revision is the document's channel set from BEFORE this
+// update: the result of the first getCurrentChannels call, which precedes the callback and the sync function.
+//@   also C02: old-channels-first, backup-channels
+//@   before[old-channels-first] call dynamic#1 called(getCurrentChannels, 1) && !called(runSyncFn, 1)
+//@   before[backup-channels]    call backupAncestorRevs#1 $5 == callres(getCurrentChannels, 1, 0) && $2 == doc && $4 == prevCurrentRev
+// (C03) the channel set, access map and role map handed to updateChannels / updateAccess are those computed for the WINNING revision
+// (by the sync function for the new revision, or recomputed for the active revision when another leaf wins), in that order
+//@   also C03: winner-channels, winner-access, winner-roles, recalc-current, winner-all-three
+//@   before[winner-channels] call updateChannels#1 $0 == #doc && $2 == ite(called(recalculateSyncFnForActiveRev, 1), callres(recalculateSyncFnForActiveRev, 1, 0), callres(runSyncFn, 1, 2))
+//@   before[winner-access]   call updateAccess#1 $2 == #doc && $3 == ite(called(recalculateSyncFnForActiveRev, 1), callres(recalculateSyncFnForActiveRev, 1, 1), callres(runSyncFn, 1, 3))
+//@   before[winner-roles]    call updateAccess#2 $2 == #doc && $3 == ite(called(recalculateSyncFnForActiveRev, 1), callres(recalculateSyncFnForActiveRev, 1, 2), callres(runSyncFn, 1, 4))
+//@   before[recalc-current]  call recalculateSyncFnForActiveRev#1 $2 == #doc && $3 == metaMap && isNilErr(callres(runSyncFn, 1, 5))
+//@   ensures[winner-all-three] called(updateChannels, 1) && isNilErr(callres(updateChannels, 1, 1)) ==> called(updateAccess, 1) && called(updateAccess, 2)
+// (C05) the callback, the winner recomputation and the sequence assignment all work on the document of this invocation, in that order
+//@   also C05: callback-on-this-doc, winner-recomputed-on-this-doc, winner-recomputed-before-sync-fn, sequence-for-this-doc
+//@   before[callback-on-this-doc] call dynamic#1 $0 == doc
+//@   before[winner-recomputed-on-this-doc] call updateWinningRevAndSetDocFlags#1 $0 == doc && isNilErr(callres(dynamic, 1, 4))
+//@   before[winner-recomputed-before-sync-fn] call runSyncFn#1 called(updateWinningRevAndSetDocFlags, 1)
+//@   before[sequence-for-this-doc] call assignSequence#1 $2 == previousDocSequenceIn && $3 == doc && called(updateWinningRevAndSetDocFlags, 1)
 //@   ensures[sync-fn-reject]        called(runSyncFn, 1) && !isNilErr(callres(runSyncFn, 1, 5)) && !callres(ForceAPIForbiddenErrors, 1, 0) ==> !isNilErr(err)
 //@   ensures[sync-fn-reject-masked] called(runSyncFn, 1) && !isNilErr(callres(runSyncFn, 1, 5)) && called(ForceAPIForbiddenErrors, 1) && callres(ForceAPIForbiddenErrors, 1, 0) ==> err == box(ErrForbidden)
 //@   ensures[success-complete]      isNilErr(err) ==> called(runSyncFn, 1) && called(assignSequence, 1) && called(persistModifiedRevisionBodies, 1)
@@ -188,4 +220,9 @@ package db
 //@   only-contracts RedactErrorf
 //@   best-effort getAttachmentIDsForLeafRevisions#1
 //@   propagates unmarshalDocumentWithXattrs#1 documentUpdateFunc#1 MarshalWithXattrs#1
+// (C05) every invocation of the write callback re-reads the value/xattrs/cas the storage layer hands it and runs the update on that
+//@   also C05: reads-current-value, callback-after-reload, callback-carries-sequence
+//@   before[reads-current-value] call unmarshalDocumentWithXattrs#1 $3 == currentValue && $4 == currentXattrs && $5 == cas
+//@   before[callback-after-reload] call documentUpdateFunc#1 called(unmarshalDocumentWithXattrs, 1) && isNilErr(callres(unmarshalDocumentWithXattrs, 1, 1))
+//@   before[callback-carries-sequence] call documentUpdateFunc#1 $5 == docSequence && $6 == unusedSequences
 //@   ensures[update-computed] isNilErr(err) ==> called(documentUpdateFunc, 1) && isNilErr(callres(documentUpdateFunc, 1, 8)) && called(MarshalWithXattrs, 1)
